@@ -1,0 +1,17 @@
+//go:build verif
+
+// Package verifhook provides yield points for the verification harness
+// under /verif. In a normal build At is an empty function.
+package verifhook
+
+import "sync/atomic"
+
+// Handler, when set, is called at every yield point and may block.
+var Handler atomic.Pointer[func(point string)]
+
+// At marks a yield point.
+func At(point string) {
+	if h := Handler.Load(); h != nil {
+		(*h)(point)
+	}
+}
